@@ -127,9 +127,14 @@ func calQn(vrfValueRatio, stakeRatio *big.Rat) uint64 {
 	}
 	maxQn := new(big.Rat).SetInt64(int64(model.Param.MaxQN))
 	step := new(big.Rat).Quo(stakeRatio, maxQn)
-	r, _ := new(big.Rat).Quo(vrfValueRatio, step).Float64()
-	qn := uint64(math.Floor(r) + 1)
-	return qn
+	// floor of the exact quotient: rounding it to a float64 first turns 4.999... (a qualified
+	// value within 2^-53 of the threshold) into 5.0 and yields MaxQN+1
+	q := new(big.Rat).Quo(vrfValueRatio, step)
+	floor := new(big.Int).Quo(q.Num(), q.Denom())
+	if !floor.IsUint64() || floor.Uint64() == math.MaxUint64 {
+		return math.MaxUint64
+	}
+	return floor.Uint64() + 1
 }
 
 func tryZeroPadding(pi vrf.VRFProve) vrf.VRFProve {
